@@ -727,6 +727,10 @@ func runC19(w *World, r *Report) {
 	branchPruneCheck(w, r, "C19.selected-never-skipped")
 
 	// ---- drain-closes
+	r.Rule("C19.branch-conditions-close", "every stream branch condition of the bundled flows (react, host multi-agent) closes its copy of the stream, or hands it to a callee, on every return path", 3)
+	if n := streamBranchConditionsClose(w, r, "C19.branch-conditions-close"); n < 3 {
+		r.Fail("C19.branch-conditions-close", "stream branch conditions in flow/", w.Fn("compose", "NewStreamGraphBranch").Pos(), fmt.Sprintf("%d condition literals found (floor 3)", n))
+	}
 	r.Rule("C19.drain-closes", "concatStreamReader defers sr.Close() first", 1)
 	{
 		csr := w.Fn("compose", "concatStreamReader")
@@ -1166,4 +1170,85 @@ func selectTableCheck(w *World, r *Report, rule string) {
 		}
 		r.Check(good, rule, name, e.fn.Pos(), fmt.Sprintf("%d cases, each returning the index and the item of its own source", e.width), why+": when that source ends the merged reader removes a live source instead (its remaining items are lost, silently) and keeps selecting on the ended one")
 	}
+}
+
+// streamBranchConditionsClose: a stream branch condition is handed its OWN copy of the node's output stream. Every
+// condition literal of the bundled flows gives that copy up on every return path: it closes it, or passes it to a callee
+// (the user's tool-call checker, documented to close it). A path that returns without either leaves the copy open: when
+// the caller closes the run's output early, the source stays open and the producers behind it stay blocked.
+func streamBranchConditionsClose(w *World, r *Report, rule string) int {
+	ctors := map[*ssa.Function]bool{}
+	for _, n := range []string{"NewStreamGraphBranch", "NewStreamGraphMultiBranch"} {
+		if f := w.TryFn("compose", n); f != nil {
+			ctors[f] = true
+		}
+	}
+	n := 0
+	seen := map[*ssa.Function]bool{}
+	for _, fn := range w.RepoFuncs("flow") {
+		instrs(fn, func(in ssa.Instruction) {
+			c, ok := in.(ssa.CallInstruction)
+			if !ok {
+				return
+			}
+			sc := staticCallee(c)
+			if sc == nil || !ctors[origin(sc)] || len(c.Common().Args) == 0 {
+				return
+			}
+			var lit *ssa.Function
+			v := c.Common().Args[0]
+			// through a local variable holding the literal
+			for d := 0; d < 4 && lit == nil; d++ {
+				switch x := v.(type) {
+				case *ssa.MakeClosure:
+					lit, _ = x.Fn.(*ssa.Function)
+				case *ssa.Function:
+					lit = x
+				case *ssa.ChangeType:
+					v = x.X
+				case *ssa.UnOp:
+					if al, ok := x.X.(*ssa.Alloc); ok {
+						for _, st := range storesToCell(fn, al) {
+							v = st.Val
+						}
+					} else {
+						d = 4
+					}
+				default:
+					d = 4
+				}
+			}
+			if lit == nil || seen[lit] {
+				return
+			}
+			seen[lit] = true
+			var sp *ssa.Parameter
+			for _, p := range lit.Params {
+				if pt, ok := p.Type().(*types.Pointer); ok {
+					if nm := namedOf(pt.Elem()); nm != nil && nm.Obj().Name() == "StreamReader" {
+						sp = p
+					}
+				}
+			}
+			if sp == nil {
+				return
+			}
+			n++
+			consumes := func(in ssa.Instruction) bool {
+				ci, ok := in.(ssa.CallInstruction)
+				if !ok {
+					return false
+				}
+				for _, a := range ci.Common().Args {
+					if a == ssa.Value(sp) {
+						return true
+					}
+				}
+				return false
+			}
+			leak, wit := pathQuery{fn: lit, goal: isReturn, avoid: consumes}.exists()
+			r.Check(!leak, rule, "stream branch condition "+w.fname(lit)+" gives up its stream copy on every path", lit.Pos(), "Close (or hand-over to a callee) before every return", "a return path neither closes the condition's copy of the stream nor hands it on ("+wit+"): when the caller closes the run's output early the merged / copied source is never closed and the producers (per-tool forwarders, the tools' own goroutines) stay blocked on their sends")
+		})
+	}
+	return n
 }
